@@ -1559,7 +1559,7 @@ impl Model {
                     st.blocked = Some(Blocked::Select { keys });
                     return false;
                 }
-                Instr::Yield { .. } => {
+                Instr::Yield { .. } | Instr::Abandon { .. } => {
                     st.pc += 1;
                 }
                 Instr::Hold { counter } => {
